@@ -376,7 +376,7 @@ func (ex *Exec) loopClauses(s ast.Stmt) (unroll int, invs []*Clause, havoc []str
 		switch c.Kind {
 		case "unroll":
 			unroll = atoi(c.Text)
-		case "invariant":
+		case "invariant", "use":
 			invs = append(invs, c)
 		case "havoc":
 			for _, h := range strings.FieldsFunc(c.Text, func(r rune) bool { return r == ',' || r == ' ' }) {
